@@ -12,6 +12,8 @@ MOLS = [
     ('thiol', 'CCCCS'), ('amine', 'CCN(CC)CCO'), ('hexenol', 'OCC[C@H](C)CC=C'), ('chlorohydrin', 'ClC[C@H](O)CC'),
     ('glycol', 'OCCOCCO'), ('ketone', 'CCC(=O)CCC'), ('fluoro', 'FC(F)CCCO'), ('diamine', 'NCCCN'),
     ('prolinol', 'OC[C@@H]1CCCN1'), ('phenethyl', 'OCCc1ccccc1'), ('threo', 'C[C@H](O)[C@@H](N)CO'),
+    # double-bond configuration defined only through an explicit hydrogen (N-H imines): the hydrogen is part of the stereo description
+    ('imine', '[H]/N=C/CC'), ('ketimine', '[H]/N=C(\\C)CC'), ('dienimine', 'CC(=N/[H])/C=C/C'),
 ]
 # molecules with a chosen number of rotatable bonds for get_num_conformers (thresholds 8 and 12)
 CHAINS = {n: 'C' * (n + 3) for n in range(0, 16)}     # n-alkane with n+3 carbons has n rotatable bonds (RDKit strict definition)
